@@ -71,7 +71,7 @@ def _infeasible_fallthrough(run, f):
             # `type(self).__name__ in ('SO3', 'SE3')`, or its normal form `... == 'SO3' or ... == 'SE3'`
             parts = t.values if (isinstance(t, ast.BoolOp) and isinstance(t.op, ast.Or)) else [t]
             for q in parts:
-                if isinstance(q, ast.Compare) and len(q.ops) == 1 and ast.unparse(q.left) == 'type(self).__name__':
+                if isinstance(q, ast.Compare) and len(q.ops) == 1 and ast.unparse(q.left) in ('type(self).__name__', 'self.__class__.__name__'):
                     if isinstance(q.ops[0], ast.In) and isinstance(q.comparators[0], (ast.Tuple, ast.List)):
                         covered |= {e.value for e in q.comparators[0].elts if isinstance(e, ast.Constant)}
                         continue
@@ -128,7 +128,7 @@ def _infeasible_by_facts(run, f, fs):
             continue
         if ast.unparse(t.left) == '%s.N' % f.selfname:
             not_n.add(t.comparators[0].value)
-        elif ast.unparse(t.left) == 'type(%s).__name__' % f.selfname:
+        elif ast.unparse(t.left) in ('type(%s).__name__' % f.selfname, '%s.__class__.__name__' % f.selfname):
             not_name.add(t.comparators[0].value)
     rv = _n_values(prog)
     if rv and rv <= not_n:
@@ -157,7 +157,8 @@ def check_a(run, f, rule='R2a'):
     reach = cfg.reachable()
     bad = []
     if cfg.falloff.id in reach:
-        if _infeasible_fallthrough(run, f):
+        from ..cfg import must_facts as _mf
+        if _infeasible_fallthrough(run, f) or _infeasible_by_facts(run, f, _mf(cfg).get(cfg.falloff.id, frozenset())):
             run.holds(rule, subj, 'fall-through', 'if/elif chain is exhaustive over the concrete subclasses '
                       '(checked against the class model)', f=f)
         else:
